@@ -3,6 +3,7 @@ MODULES = [
     "contracts.c_map",
     "contracts.c_static",
     "contracts.c_zip",
+    "contracts.c_bool",
 ]
 EXPECTED_MIN_OBLIGATIONS = {}
 PROPERTY_ASSUMPTIONS = {}
